@@ -31,11 +31,9 @@ struct Meta {
     max_attrs: u64,
     /// JSON: nesting depth of the document
     depth: u64,
-    /// the input has one of the three shapes whose behaviour changed with /repo ae885a6, 5a9c87e,
-    /// 7f9b2b3 (a repeated attribute name in a JaCoCo element; a repeated line number or demangled
-    /// name in a gcov JSON file; invalid UTF-8 in a gcov text report): name of the counter that takes
-    /// a disagreement on it while the base model (Jacoco.lean / Gcov.lean) still answers the old way
-    pending: Option<&'static str>,
+    /// the input repeats a line number / demangled name (gcov JSON) or an attribute name (JaCoCo):
+    /// counted, so that the evidence shows these shapes are generated and tied
+    repeats: bool,
 }
 
 #[derive(Clone)]
@@ -664,8 +662,7 @@ fn json_case(what: &str, j: &J, adversarial: bool) -> Case {
     // deep nesting only occurs in members the reader ignores: serde_json skips those without recursion
     // (`ignore_value` keeps its own stack), so the recursion limit of 128 never applies to them
     let model = format!("c14.text.gcovjson {}", tree);
-    let pending = if json_has_repeats(j) { Some("textcost.pending_base_model.gcovjson_repeated_line_or_function") } else { None };
-    Case { kind: "gcovjson", what: what.into(), data: text, model, meta: Meta { depth: j.depth() as u64, pending, ..Default::default() }, adversarial }
+    Case { kind: "gcovjson", what: what.into(), data: text, model, meta: Meta { depth: j.depth() as u64, repeats: json_has_repeats(j), ..Default::default() }, adversarial }
 }
 
 fn xml_escape(v: &[u8]) -> Vec<u8> {
@@ -848,9 +845,7 @@ fn jacoco_case(what: &str, xml: Vec<u8>, meta: Meta, adversarial: bool, tie: boo
             let set: std::collections::BTreeSet<&&str> = keys.iter().collect();
             set.len() != keys.len()
         });
-        if repeated {
-            meta.pending = Some("textcost.pending_base_model.jacoco_repeated_attribute");
-        }
+        meta.repeats = repeated;
         format!("c14.text.jacoco 1000000000000 {}", evs.join(" "))
     } else {
         String::new()
@@ -892,8 +887,7 @@ fn lcov_case(what: &str, data: Vec<u8>, meta: Meta, adversarial: bool, tie: bool
 }
 fn gcov_case(what: &str, data: Vec<u8>, adversarial: bool, tie: bool) -> Case {
     let model = if tie { format!("c14.text.gcov {}", hex(&data)) } else { String::new() };
-    let pending = if std::str::from_utf8(&data).is_err() { Some("textcost.pending_base_model.gcov_invalid_utf8_name") } else { None };
-    Case { kind: "gcov", what: what.into(), data, model, meta: Meta { pending, ..Default::default() }, adversarial }
+    Case { kind: "gcov", what: what.into(), data, model, meta: Meta::default(), adversarial }
 }
 
 fn build_cases(rep: &Report, rng: &mut Rng) -> Vec<Case> {
@@ -1615,6 +1609,12 @@ fn evaluate(rep: &mut Report, cases: &[Case], obs: &[Obs], model: &BTreeMap<usiz
             continue;
         }
         rep.count(&format!("textcost.{}.tied", c.kind));
+        if c.meta.repeats {
+            rep.count(&format!("textcost.{}.tied_with_repeated_key", c.kind));
+        }
+        if c.kind == "gcov" && std::str::from_utf8(&c.data).is_err() {
+            rep.count("textcost.gcov.tied_with_invalid_utf8");
+        }
         let mc = class_of(&m);
         let ms = kv(&m);
         let mut diff: Option<String> = None;
@@ -1628,12 +1628,6 @@ fn evaluate(rep: &mut Report, cases: &[Case], obs: &[Obs], model: &BTreeMap<usiz
                     break;
                 }
             }
-        }
-        if let (Some(_), Some(counter)) = (&diff, c.meta.pending) {
-            // the base model of this reader has not followed the fix yet: counted, not judged; the
-            // counter drops to zero once Jacoco.lean / Gcov.lean answer as the code does
-            rep.count(counter);
-            continue;
         }
         if let Some(d) = diff {
             rep.disagreements_checked += 1;
